@@ -1,5 +1,6 @@
 import NetVerif.Driver.Util
 import NetVerif.Model.Icmp
+import NetVerif.Model.CtlMsg
 /-! Line-protocol driver for the ICMP / IPv4-header model (C60). Stateless. -/
 open NetVerif.Driver NetVerif.Model.Icmp
 
@@ -149,6 +150,41 @@ def hdrP : P String := do
       | .ok h' => showHeader h'
     pure s!"ok {hexOfBytes wire} {back}"
 
+open NetVerif.Model.CtlMsg in
+def showPErr : PErr → String
+  | .invalidHeaderLength => "err-hdr"
+  | .invalidMessageLength => "err-msg"
+  | .shortBuffer => "err-short"
+
+open NetVerif.Model.CtlMsg in
+def showCM4 (r : PR CM4) : String :=
+  match r with
+  | .ok c => s!"ok {c.ttl} {hexOfBytes c.src} {hexOfBytes c.dst} {c.ifIndex}"
+  | .err e => showPErr e
+  | .panic => "panic"
+
+open NetVerif.Model.CtlMsg in
+def showCM6 (r : Except PErr CM6) : String :=
+  match r with
+  | .ok c => s!"ok {c.trafficClass} {c.hopLimit} {hexOfBytes c.src} {hexOfBytes c.dst} {c.ifIndex} {hexOfBytes c.nextHop} {c.mtu}"
+  | .error e => showPErr e
+
+open NetVerif.Model.CtlMsg in
+def cm4mP : P String := do
+  let ttl ← intP; let src ← bytesP; let dst ← bytesP; let ifi ← intP
+  if (← get) ≠ [] then failure
+  let cm : CM4 := ⟨ttl, src, dst, ifi⟩
+  let w := cm.marshal
+  pure s!"ok {hexOfBytes w} {showCM4 (CM4.zero.parse w)}"
+
+open NetVerif.Model.CtlMsg in
+def cm6mP : P String := do
+  let tc ← intP; let hl ← intP; let src ← bytesP; let dst ← bytesP; let ifi ← intP; let nh ← bytesP; let mtu ← intP
+  if (← get) ≠ [] then failure
+  let cm : CM6 := ⟨tc, hl, src, dst, ifi, nh, mtu⟩
+  let w := cm.marshal
+  pure s!"ok {hexOfBytes w} {showCM6 (CM6.zero.parse w)}"
+
 def runP (p : P String) (ts : List String) : String :=
   match p.run ts with
   | some (s, _) => s
@@ -170,6 +206,16 @@ def c60Step (_ : Unit) (line : String) : Unit × String :=
          | .error .tooShort => "perr-short"
          | .error _ => "perr-ext"
          | .ok h => "ok " ++ showHeader h)
+      | none => "bad-op"
+    | "cm4m" :: rest => runP cm4mP rest
+    | "cm6m" :: rest => runP cm6mP rest
+    | ["cm4p", b] =>
+      match parseBytes b with
+      | some b => showCM4 (NetVerif.Model.CtlMsg.CM4.zero.parse b)
+      | none => "bad-op"
+    | ["cm6p", b] =>
+      match parseBytes b with
+      | some b => showCM6 (NetVerif.Model.CtlMsg.CM6.zero.parse b)
       | none => "bad-op"
     | ["csum", b] =>
       match parseBytes b with
